@@ -3,8 +3,10 @@ on the reader model, compared with the implementation: items, final outcome incl
 number of read calls.  BTOR2: every field of every line (or, flags 'w', the bytes `Line::write_into` writes for every
 parsed line), plus `pa b2c` cases for the validating constructors of the constants.  AIGER flags 'w': the whole-file API;
 'x': the whole-file API, then the bytes the crate's writers produce for the parsed value (ascii::Writer::write_aig; binary:
-binary::Writer::write_ordered_aig, the same with every gate's inputs exchanged, ascii::Writer::write_ordered_aig)."""
+binary::Writer::write_ordered_aig, the same with every gate's inputs exchanged, ascii::Writer::write_ordered_aig).
+DIMACS (cnf/wcnf/gcnf) flags 'x': after a clean end, W:<hex of header and clauses written back with write_header / write_clause>."""
 import re
+import zlib
 from streams import docs
 
 def _btor2_keywords():
@@ -221,6 +223,10 @@ def gen(rng, n, tier, **kw):
         parser, ty, flags, data, _ = docs.gen_doc(rng, parser=parser)
         if len(data) > 400:
             continue
+        if parser != "log" and zlib.crc32(data) % 5 == 0:
+            # 'x': after a clean end, header and clauses written back with the crate's write_header / write_clause
+            # (decided from the document, not by a draw: the other cases of the stream stay what they were)
+            flags = "x" if flags == "-" else flags + "x"
         sched = docs.gen_schedule(rng, len(data))
         if rng.random() < 0.12:
             sched = faulty(rng, sched, len(data))
@@ -230,7 +236,7 @@ def gen(rng, n, tier, **kw):
 
 def category(case):
     t = case.split()
-    return "pa/" + t[1] + ("/w" if t[1] == "btor2" and "w" in t[3] else "") + ("/x" if t[1] in ("aag", "aig") and "x" in t[3] else "")
+    return "pa/" + t[1] + ("/w" if t[1] == "btor2" and "w" in t[3] else "") + ("/x" if t[1] in ("aag", "aig", "cnf", "wcnf", "gcnf") and "x" in t[3] else "")
 
 
 def nontrivial(case):
